@@ -1,3 +1,6 @@
+import TantivyModel.Proofs.SSTable.Framing
+import TantivyModel.Proofs.SSTable.LocateOrd
+import TantivyModel.Proofs.SSTable.Inverse
 import TantivyModel.Proofs.SSTable.AddrStoreProofs
 import TantivyModel.Proofs.SSTable.Prefix
 import TantivyModel.Proofs.SSTable.MergeProofs
@@ -422,6 +425,162 @@ theorem C15_addr_binary_search (f : Nat → Nat) (t n : Nat)
    the bit-level layout (`BitPacker::write` / `extract_bits`), the 36-byte metadata record, and
    `Store.locateOrd = Dict.locateOrd` as a whole; `locate_with_key` goes through the FST, which is
    a parameter with the contract "first key ≥ k". -/
+
+/-! ## ordinals and keys are inverse; order across block boundaries -/
+
+/-- `ord_to_term ∘ term_ord = id` and the converse, on the dictionary built from any sorted map at
+any block length: `term_ord(k) = Some(i)` iff `ord_to_term(i)` yields `k` -/
+theorem C15_ord_term_inverse {V} (blockLen : Nat) (m : Assoc V) (hs : SortedMap m) (k : Key) (i : Nat) :
+    (build blockLen m).termOrd k = some i ↔ (build blockLen m).ordToTerm i = some k := by
+  rw [refine_termOrd blockLen m hs k, (refine_ordToTerm blockLen m i).1]
+  exact spec_ord_inverse m hs k i
+
+/-- the only order check for the first key of a block (`previous_key` was cleared by the flush) is
+the assert of `find_shorter_str_in_between`, run by `insert_key` against the last key of the last
+closed block. With both facts extracted from the source (`separatorGuard`), the writer rejects
+every key that is not strictly above the last key of the previous block — whatever the block
+length and the rest of the state. (Seeded change C15-D removes that assert: `separatorGuard`
+becomes false and this theorem, `C15_insert_accepts_iff` and `C15_insert_order_partial` stop
+checking.) -/
+theorem C15_block_boundary_rejects (blockLen : Nat) (s : WState) (l k : Key)
+    (hstart : s.blockStart = true) (hlast : s.lastBlockKey = some l) (hnot : lexLt l k = false) :
+    s.insert blockLen k = none := by
+  have hsg : separatorGuard = true := by decide
+  unfold WState.insert WState.sepOk
+  simp [hstart, hsg, hlast, hnot]
+
+/-- and within a block (previous key non-empty) the asserted `increasing_keys` expression — its
+shape and the assert are extracted (`increasingGuard`) — rejects every key that is not strictly
+above the previous one -/
+theorem C15_within_block_rejects (blockLen : Nat) (s : WState) (k : Key) (hp : s.prev ≠ [])
+    (hnot : lexLt s.prev k = false) : s.insert blockLen k = none := by
+  have hig : increasingGuard = true := by decide
+  have hne : increasingKeys s.prev k ≠ some true := by
+    intro h
+    rw [(increasingKeys_iff s.prev k hp).mp h] at hnot
+    cases hnot
+  unfold WState.insert incOk
+  simp [hig, hne]
+
+example : ({ blockStart := true, lastBlockKey := some [5] } : WState).insert 0 [5] = none ∧
+    ({ blockStart := true, lastBlockKey := some [5] } : WState).insert 0 [4, 9] = none ∧
+    (({ blockStart := true, lastBlockKey := some [5] } : WState).insert 0 [5, 0]).isSome = true := by decide
+example : ({ prev := [5], blockStart := false } : WState).insert 4000 [5] = none := by decide
+example : (build 2 [(([1] : Key), 10), ([1, 2], 20), ([1, 2, 3], 30), ([2], 40)]).termOrd [1, 2, 3] = some 2 ∧
+    (build 2 [(([1] : Key), 10), ([1, 2], 20), ([1, 2, 3], 30), ([2], 40)]).ordToTerm 2 = some [1, 2, 3] := by decide
+
+/-- `binary_search_ord` of the v3 index as a whole (store blocks of `B = STORE_BLOCK_LEN` addresses;
+outer binary search over the store blocks' reference ordinals; the FAST PATH when `ord` is exactly
+a reference ordinal, returning block id `g * B`; `bisect_for_ord` inside the store block
+otherwise) equals the abstract search the routing theorems use — "the last block whose first
+ordinal is ≤ ord" (`Dict.locateOrd`) — for every strictly increasing list of first ordinals and
+every store-block geometry with all store blocks but the last full. (Seeded change C15-C returns
+the address of block `g` instead of block `g * B` on the fast path; the model keeps the two id
+spaces apart and the harness cross-decodes the real index bytes against it.) -/
+theorem C15_addr_locate_ord (B G : Nat) (bl : Nat → Nat) (ords : List Nat) (ord : Nat)
+    (hG : 0 < G) (hfull : ∀ g, g + 1 < G → bl g + 1 = B) (hlast : bl (G - 1) + 1 ≤ B)
+    (hn : ords.length = (G - 1) * B + bl (G - 1) + 1)
+    (hs : ords.Pairwise (· < ·)) (h0 : ords.getD 0 0 ≤ ord) :
+    locateOrdGen B G bl (fun id => ords.getD id 0) ord
+      = (ords.filter (fun x => decide (x ≤ ord))).length - 1 := by
+  have hget : ∀ i, i < ords.length → ords.getD i 0 = ords[i]! := by
+    intro i hi
+    simp [List.getD_eq_getElem?_getD, List.getElem?_eq_getElem hi, hi]
+  have hmono : ∀ a b, a < b → b < ords.length → ords.getD a 0 < ords.getD b 0 := by
+    intro a b hab hb
+    have ha : a < ords.length := by omega
+    have := (List.pairwise_iff_getElem.mp hs) a b ha hb hab
+    simpa [List.getD_eq_getElem?_getD, List.getElem?_eq_getElem ha, List.getElem?_eq_getElem hb] using this
+  obtain ⟨h1, h2, h3⟩ := locateOrdGen_spec B G bl (fun id => ords.getD id 0) ord ords.length hG hfull
+    hlast hn hmono h0
+  have := filter_le_length ords ord _ hs h1 h2 h3
+  omega
+
+example : locateOrdGen 2 3 (fun g => if g = 2 then 0 else 1) (fun id => [0, 3, 5, 9, 12].getD id 0) 5 = 2 ∧
+    locateOrdGen 2 3 (fun g => if g = 2 then 0 else 1) (fun id => [0, 3, 5, 9, 12].getD id 0) 11 = 3 ∧
+    locateOrdGen 2 3 (fun g => if g = 2 then 0 else 1) (fun id => [0, 3, 5, 9, 12].getD id 0) 12 = 4 := by decide
+
+/-- end to end for ordinal lookups: on the dictionary the writer builds from any sorted map (more
+than one block), the v3 `binary_search_ord` — run over that dictionary's own first ordinals, for
+every store-block geometry with all store blocks but the last full — finds exactly the block
+`Dict.locateOrd` uses, so `C15_ops_refine_ord_to_term`, `C15_ops_refine_sorted_ords` and the limit
+part of `C15_ops_refine_range` hold for the two-level search with its fast path -/
+theorem C15_locate_ord_dict {V} (blockLen : Nat) (m : Assoc V) (hs : SortedMap m)
+    (hmulti : (build blockLen m).single = false) (B G : Nat) (bl : Nat → Nat) (ord : Nat)
+    (hG : 0 < G) (hfull : ∀ g, g + 1 < G → bl g + 1 = B) (hlast : bl (G - 1) + 1 ≤ B)
+    (hn : (build blockLen m).blocks.length = (G - 1) * B + bl (G - 1) + 1) :
+    locateOrdGen B G bl (fun id => ((build blockLen m).blocks.map (·.firstOrd)).getD id 0) ord
+      = (build blockLen m).locateOrd ord := by
+  obtain ⟨h1, h2, h3⟩ := build_firstOrds blockLen m hs hmulti ord
+  rw [h3]
+  exact C15_addr_locate_ord B G bl _ ord hG hfull hlast (by simpa using hn) h1 (by omega)
+
+/-! ## value blocks and file framing -/
+
+/-- value codecs: a block of non-decreasing u64 values (`MonotonicU64SSTable`) and a block of
+consecutive ranges (`RangeSSTable`) read back exactly, and the reader returns exactly the bytes
+that follow the value block (the key entries) -/
+theorem C15_value_roundtrip (rest : List UInt8) :
+    (∀ vals : List Nat, MonoFrom 0 vals → loadU64Mono (serU64Mono vals ++ rest) = (vals, rest)) ∧
+    (∀ rs : List (Nat × Nat), Contig rs → MonoFrom 0 (rangeBounds rs) →
+      loadRange (serRange rs ++ rest) = (rs, rest)) :=
+  ⟨fun vals h => loadU64Mono_ser vals rest h, fun rs hc hm => loadRange_ser rs rest hc hm⟩
+
+/-- one block as it lies in the file (value block, then front-coded keys) decodes to its values
+and its keys -/
+theorem C15_block_payload_roundtrip (vals : List Nat) (ks : List Key) (hv : MonoFrom 0 vals)
+    (hk : StrictInc ks) :
+    (loadU64Mono (serU64Mono vals ++ encodeBlockKeys ks)).1 = vals ∧
+    decodeBlockKeys (loadU64Mono (serU64Mono vals ++ encodeBlockKeys ks)).2 = ks := by
+  rw [loadU64Mono_ser vals _ hv]
+  exact ⟨rfl, decodeBlockKeys_encode ks hk⟩
+
+/-- the data part of a file — blocks cut at any block length, each framed as
+`u32 (len + 1) | compress byte 0 | payload`, then the end marker — read by `read_block` and decoded
+block by block gives back the key list, whatever follows the end marker (index, footer) -/
+theorem C15_file_roundtrip (blockLen : Nat) (ks : List Key) (tail : List UInt8) (hs : StrictInc ks)
+    (hsize : ∀ b ∈ encodeBlocks blockLen ks, b.length + 1 < 4294967296) :
+    (readBlocks ((encodeBlocks blockLen ks).length + 1)
+        (frameBlocks (encodeBlocks blockLen ks) ++ tail)).map
+      (fun bs => ((bs.filterMap isPlain).map decodeBlockKeys).flatten) = some ks := by
+  have hne : ∀ p ∈ encodeBlocks blockLen ks, p ≠ [] ∧ p.length + 1 < 4294967296 := by
+    intro p hp
+    refine ⟨?_, hsize p hp⟩
+    unfold encodeBlocks at hp
+    obtain ⟨b, hb, rfl⟩ := List.mem_map.mp hp
+    have hbne : b ≠ [] := cutBlocks_nonempty id blockLen [] 0 [] ks b hb
+    have := encodeEntries_length_ge [] b
+    intro e
+    unfold encodeBlockKeys at e
+    rw [e] at this
+    have : b.length = 0 := by simpa using this
+    exact hbne (List.eq_nil_of_length_eq_zero this)
+  have h := readBlocks_frame (encodeBlocks blockLen ks) tail _ (Nat.lt_succ_self _) hne
+  cases hr : readBlocks ((encodeBlocks blockLen ks).length + 1)
+      (frameBlocks (encodeBlocks blockLen ks) ++ tail) with
+  | none => rw [hr] at h; simp at h
+  | some bs =>
+    rw [hr] at h
+    simp only [Option.map_some, Option.some.injEq] at h ⊢
+    have hfm : bs.filterMap isPlain = encodeBlocks blockLen ks := by
+      have : ∀ (l : List RawBlock) (ps : List (List UInt8)), l.map isPlain = ps.map some → l.filterMap isPlain = ps := by
+        intro l
+        induction l with
+        | nil => intro ps h; cases ps <;> simp_all
+        | cons a r ih =>
+          intro ps h
+          cases ps with
+          | nil => simp at h
+          | cons p ps' =>
+            simp only [List.map_cons, List.cons.injEq] at h
+            simp [List.filterMap_cons, h.1, ih ps' h.2]
+      exact this bs _ h
+    rw [hfm]
+    exact C15_delta_roundtrip blockLen ks hs
+
+example : MonoFrom 0 [3, 3, 10] ∧ Contig [(5, 7), (7, 7), (7, 20)] ∧ MonoFrom 0 (rangeBounds [(5, 7), (7, 7), (7, 20)]) := by
+  simp [MonoFrom, Contig, rangeBounds]
+example : frameBlocks [[16, 17, 33, 18, 19, 17, 20]] = [8, 0, 0, 0, 0, 16, 17, 33, 18, 19, 17, 20, 0, 0, 0, 0] := by decide
 
 /-! ## insertion order (DESIGN §8, F6) -/
 
